@@ -308,6 +308,7 @@ Definition wfc (c : mcall) : Prop :=
   | CFindConflict a b _ => wfa a /\ wfa b
   | CBetweenSub _ _ sels1 _ sels2 => wfs sels1 /\ wfs sels2
   | CBetween _ fm1 fm2 => gm fm1 /\ gm fm2
+  | CFragmentLoop _ frags _ => frags = []
   | CWithin fm => gm fm
   | CWithinSelectionSet _ sels => wfs sels
   | _ => False
@@ -328,6 +329,7 @@ Definition need (c : mcall) : nat :=
               | CFindConflict _ _ _ => 0
               | CBetweenSub _ _ _ _ _ => 2
               | CBetween _ _ _ => 1
+              | CFragmentLoop _ _ _ => 1
               | CWithin _ => 1
               | CWithinSelectionSet _ _ => 2
               | _ => 0
@@ -496,10 +498,13 @@ Lemma mrun_between_sub fuel s d m pn1 sels1 pn2 sels2 st :
   let '(fm1, fr1) := get_fields_and_fragment_names s (opt_bind pn1 (type_by_name s)) sels1 in
   let '(fm2, fr2) := get_fields_and_fragment_names s (opt_bind pn2 (type_by_name s)) sels2 in
   seq_calls (mrun fuel s d)
-    ([CBetween m fm1 fm2] ++
-     map (fun f => CFieldsAndFragment fm1 f m) fr2 ++
-     map (fun f => CFieldsAndFragment fm2 f m) fr1 ++
+    ([CBetween m fm1 fm2; CFragmentLoop fm1 fr2 m; CFragmentLoop fm2 fr1 m] ++
      flat_map (fun a => map (fun b => CBetweenFragments a b m) fr2) fr1) st.
+Proof. reflexivity. Qed.
+
+Lemma mrun_fragment_loop_nil fuel s d fm m st :
+  mrun (S fuel) s d (CFragmentLoop fm [] m) st
+  = Some (mkMS (ms_compared st) (ms_visited st) (ms_being st), []).
 Proof. reflexivity. Qed.
 
 Definition between_calls (m : bool) (fm1 fm2 : fmap) : list mcall :=
@@ -524,13 +529,21 @@ Proof. reflexivity. Qed.
 Lemma mrun_within_set fuel s d parent sels st :
   mrun (S fuel) s d (CWithinSelectionSet parent sels) st =
   let '(fm, frs) := get_fields_and_fragment_names s parent sels in
-  seq_calls (mrun fuel s d)
-    ([CWithin fm] ++
-     (fix go (l : list name) : list mcall :=
-        match l with
-        | [] => []
-        | f1 :: r => CFieldsAndFragment fm f1 false :: map (fun f2 => CBetweenFragments f1 f2 false) r ++ go r
-        end) frs) st.
+  match mrun fuel s d (CWithin fm) st with
+  | Some (st0, cs0) =>
+      let saved := ms_visited st0 in
+      match seq_calls (mrun fuel s d)
+              ((fix go (l : list name) : list mcall :=
+                  match l with
+                  | [] => []
+                  | f1 :: r => CFieldsAndFragment fm f1 false :: map (fun f2 => CBetweenFragments f1 f2 false) r ++ go r
+                  end) frs)
+              (mkMS (ms_compared st0) [] (ms_being st0)) with
+      | Some (st1, cs1) => Some (mkMS (ms_compared st1) saved (ms_being st1), cs0 ++ cs1)
+      | None => None
+      end
+  | None => None
+  end.
 Proof. reflexivity. Qed.
 
 (* ================================================================== the calls of CBetween / CWithin *)
@@ -695,10 +708,10 @@ Section Run.
     wfc c -> nohit c st -> need c <= fuel -> dep c <= n -> ok_result s n c st (mrun fuel s d c st).
   Proof.
     induction fuel as [|fuel IH]; intros n c st Hw Hno Hfuel Hn.
-    - exfalso. destruct c as [a b pm|m pn1 sels1 pn2 sels2|?|?|m fm1 fm2|fm|parent sels]; cbn [wfc] in Hw;
+    - exfalso. destruct c as [a b pm|m pn1 sels1 pn2 sels2|?|?|m fm1 fm2|fm0 frags m|fm|parent sels]; cbn [wfc] in Hw;
         try contradiction; unfold need in Hfuel; try lia.
       destruct Hw as [[Fa _] _]. cbn [dep] in Hfuel. unfold sda in Hfuel. rewrite (sd_field _ Fa) in Hfuel. lia.
-    - destruct c as [a b pm|m pn1 sels1 pn2 sels2|?|?|m fm1 fm2|fm|parent sels]; cbn [wfc] in Hw; try contradiction.
+    - destruct c as [a b pm|m pn1 sels1 pn2 sels2|?|?|m fm1 fm2|fm0 frags m|fm|parent sels]; cbn [wfc] in Hw; try contradiction.
       + (* CFindConflict *)
         destruct Hw as [[Fa [Sa Na]] [Fb [Sb Nb]]].
         unfold need in Hfuel. cbn [dep] in Hfuel, Hn. unfold sda in Hfuel, Hn. rewrite (sd_field _ Fa) in Hfuel, Hn.
@@ -759,13 +772,19 @@ Section Run.
         assert (Hd : list_max (map sda (fm_fields fm1)) <= maxd sels1).
         { apply list_max_le, Forall_forall. intros k Hk. apply in_map_iff in Hk. destruct Hk as [a [<- Ha]].
           apply Dp1, Ha. }
-        destruct (IH n (CBetween m fm1 fm2) st) as [st1 [cs1 [E [F N]]]].
-        { split; assumption. }
-        { apply (nohit_sub _ _ _ Hsub Hno). }
-        { unfold need. cbn [dep]. lia. }
-        { cbn [dep]. lia. }
-        rewrite seq_single, E. exists st1, (cs1 ++ []). split; [reflexivity|]. rewrite app_nil_r.
-        split; [apply (frame_in_impl _ _ _ _ Hsub F)|exact N].
+        set (calls := [CBetween m fm1 fm2; CFragmentLoop fm1 [] m; CFragmentLoop fm2 [] m]).
+        assert (Hsubc : forall c, In c calls -> forall pq, inrect pq c -> inrect pq (CBetweenSub m pn1 sels1 pn2 sels2)).
+        { intros c [<-|[<-|[<-|[]]]] pq Hr; [apply Hsub, Hr|destruct Hr as [[] _]|destruct Hr as [[] _]]. }
+        destruct (seq_ok s n (mrun fuel s d) calls st) as [st1 [cs1 [E [F N]]]].
+        { intros c [<-|[<-|[<-|[]]]] st0 Hno0.
+          - apply IH; [split; assumption|exact Hno0|unfold need; cbn [dep]; lia|cbn [dep]; lia].
+          - apply IH; [reflexivity|exact Hno0|unfold need; cbn [dep]; lia|cbn [dep]; lia].
+          - apply IH; [reflexivity|exact Hno0|unfold need; cbn [dep]; lia|cbn [dep]; lia]. }
+        { repeat constructor; intros pq Hr1 Hr2; try (destruct Hr2 as [[] _]); destruct Hr1 as [[] _]. }
+        { intros c Hc. apply (nohit_sub _ _ _ (Hsubc c Hc) Hno). }
+        exists st1, cs1. split; [exact E|]. split.
+        * apply (frame_in_impl _ _ _ _ (fun pq H => match H with ex_intro _ c (conj Hc Hr) => Hsubc c Hc pq Hr end) F).
+        * rewrite N. unfold calls. cbn [existsb pure]. rewrite !orb_false_r. reflexivity.
       + (* CBetween *)
         destruct Hw as [G1 G2]. unfold need in Hfuel. cbn [dep] in Hfuel, Hn.
         rewrite mrun_between.
@@ -782,6 +801,10 @@ Section Run.
         exists st', cs. split; [exact E|]. split.
         * apply (frame_in_impl _ _ _ _ (fun pq H => match H with ex_intro _ c (conj Hc Hr) => Hsub c Hc pq Hr end) F).
         * rewrite N, pure_between_calls. reflexivity.
+      + (* CFragmentLoop on an empty list of fragments *)
+        cbn [wfc] in Hw. subst frags. rewrite mrun_fragment_loop_nil.
+        eexists _, []. split; [reflexivity|]. split; [|reflexivity].
+        split; [reflexivity|]. split; [reflexivity|]. exists []. cbn [ms_being]. split; [symmetry; apply app_nil_r|intros pq []].
       + (* CWithin *)
         rename Hw into G. unfold need in Hfuel. cbn [dep] in Hfuel, Hn.
         rewrite mrun_within.
@@ -813,8 +836,10 @@ Section Run.
         { apply (nohit_sub _ _ _ Hsub Hno). }
         { unfold need. cbn [dep]. lia. }
         { cbn [dep]. lia. }
-        rewrite seq_single, E. exists st1, (cs1 ++ []). split; [reflexivity|]. rewrite app_nil_r.
-        split; [apply (frame_in_impl _ _ _ _ Hsub F)|exact N].
+        rewrite E. cbn [seq_calls]. eexists _, (cs1 ++ []). split; [reflexivity|]. rewrite app_nil_r.
+        split; [|exact N].
+        apply (frame_in_impl _ _ _ _ Hsub) in F. destruct F as [Fc [Fv Fb]].
+        split; [exact Fc|]. split; [exact Fv|exact Fb].
   Qed.
 End Run.
 
